@@ -30,9 +30,25 @@ def HoldsRace (cfg : Cfg) : Prop :=
   ∀ (h : List Op) (q : Query) (res : List Rec),
     answerSecond cfg (run cfg h) q = some res → CorrectPage res q (run cfg h).store
 
+/-- the claim-race witness: `k1` (n = 1) and `k2` (n = 2) are selected by a key-ordered shift for
+    `n >= 1`; before the shifter gets to its deletes `k1`'s counter is set to 0 (it does not match any
+    more).  `k1` must be alive and back in the key index afterwards, `k2` claimed. -/
+def claimWitnessOk (cfg : Cfg) : Bool :=
+  let q : Query := { slot := .key, asc := true, from_ := 0, limit := 0, fromT := none, toT := none }
+  let st0 := run cfg [.set { key := "k0", ct := .i64, val := 7, created := 0, updated := 0, expire := 0 },
+                      .set { key := "k1", ct := .bytes, val := 1, created := 0, updated := 0, expire := 0 },
+                      .set { key := "k2", ct := .bytes, val := 2, created := 0, updated := 0, expire := 0 }]
+  let (st1, keys) := claimSelect cfg st0 q 1
+  let st2 := stepSet cfg st1 { key := "k1", ct := .bytes, val := 0, created := 0, updated := 0, expire := 0 }
+  let (st3, claimed) := claimRelease cfg st2 1 keys
+  claimed == ["k2"] && (answer cfg st3 q).map (·.map (·.key)) == some ["k0", "k1"]
+
+/-- …in the forced schedule of `claimWitnessOk` the record that lost the claim is read again -/
+def HoldsClaim (cfg : Cfg) : Prop := claimWitnessOk cfg = true
+
 /-- Full-strength statement: every answered read is a correct page, the second of two racing
-    first readers included. -/
-def Holds (cfg : Cfg) : Prop := HoldsSeq cfg ∧ HoldsRace cfg
+    first readers included, and a record that loses a claim race is back in its index. -/
+def Holds (cfg : Cfg) : Prop := HoldsSeq cfg ∧ HoldsRace cfg ∧ HoldsClaim cfg
 
 /-- the same, for reads of the index types in `S` only (the history is still arbitrary) -/
 def HoldsFor (cfg : Cfg) (S : Slot → Prop) : Prop :=
@@ -448,7 +464,7 @@ def seqGoodB (cfg : Cfg) : Bool :=
   bsGoodB cfg && slotGoodB cfg .key && slotGoodB cfg .created && slotGoodB cfg .updated &&
   slotGoodB cfg .expire && slotGoodB cfg (.value .i64)
 
-def goodB (cfg : Cfg) : Bool := seqGoodB cfg && cfg.initialisedAfterFill
+def goodB (cfg : Cfg) : Bool := seqGoodB cfg && cfg.initialisedAfterFill && claimWitnessOk cfg
 
 /-- **Full theorem (repaired facts).**  If every change of a sort attribute re-files the record,
     incremental inserts re-sort with the beacon's own comparator, cold builds and inserts admit
@@ -478,7 +494,7 @@ theorem holdsRace_of (cfg : Cfg) (hs : HoldsSeq cfg) (hf : cfg.initialisedAfterF
 
 theorem holds_of_good (cfg : Cfg) (h : goodB cfg = true) : Holds cfg := by
   simp only [goodB, Bool.and_eq_true] at h
-  exact ⟨holdsSeq_of_good cfg h.1, holdsRace_of cfg (holdsSeq_of_good cfg h.1) h.2⟩
+  exact ⟨holdsSeq_of_good cfg h.1.1, holdsRace_of cfg (holdsSeq_of_good cfg h.1.1) h.1.2, h.2⟩
 
 /-- **Partial theorem.**  Whatever the other facts are: the index types whose own facts are sound
     are always read correctly, for every history (including histories that break other indexes). -/
@@ -637,15 +653,18 @@ theorem refutes_of_race (cfg : Cfg) (h : raceFails cfg = true) : ¬ HoldsRace cf
     simp [ha, this] at h
 
 def findings (cfg : Cfg) : List String :=
-  seqFindings cfg ++ (if raceFails cfg then ["C07-first-readers-race"] else [])
+  seqFindings cfg ++ (if raceFails cfg then ["C07-first-readers-race"] else []) ++
+  (if !claimWitnessOk cfg then ["C07-claim-loser-dropped"] else [])
 
 theorem refutes_of_findings (cfg : Cfg) (h : findings cfg ≠ []) : ¬ Holds cfg := by
   intro hh
   unfold findings at h
   by_cases hs : seqFindings cfg = []
   · by_cases hr : raceFails cfg = true
-    · exact refutes_of_race cfg hr hh.2
-    · simp [hs, hr] at h
+    · exact refutes_of_race cfg hr hh.2.1
+    · by_cases hc : claimWitnessOk cfg = true
+      · simp [hs, hr, hc] at h
+      · exact hc hh.2.2
   · exact refutes_of_seqFindings cfg hs hh.1
 
 /-- the facts of the tree before the four `fix:` commits on the index maintenance -/
@@ -657,7 +676,7 @@ def beforeFix : Cfg := {
   updRefreshCreated := false, updRefreshUpdated := false, updRefreshValue := false, updRefreshExpireOnFlag := true,
   typeChangeDetected := false, valueShared := true, flagsSticky := true, setVoidClearsTyped := false,
   initialisedAfterFill := false, refileGuardExpire := true, patchExpiredReindexesAll := true,
-  windowBoundsChecked := false }
+  windowBoundsChecked := false, claimLoserRefiled := true }
 
 /-- the facts of the tree as of this writing: `SaveFunction` re-files a treasure in the built
     creation-time or update-time index when that timestamp changes, and any add to / content change in
@@ -723,6 +742,8 @@ example : findings repaired = [] := by decide
 example : findings { repaired with bsAscFrom := .le } = ["C07-window-bounds-operator"] := by decide
 example : findings { repaired with bsDescTo := .le } = ["C07-window-bounds-operator"] := by decide
 example : findings { repaired with coldFilterExpire := false } = ["C07-cold-build-no-zero-filter"] := by decide
+example : findings { repaired with claimLoserRefiled := false } = ["C07-claim-loser-dropped"] := by decide
+example : findings { current with claimLoserRefiled := false } = ["C07-value-index-mixed-types", "C07-claim-loser-dropped"] := by decide
 example : findings { repaired with windowBoundsChecked := false } = ["C07-window-bound-wraps"] := by decide
 /-- Closed witness: an upper window bound of 9999-12-31T23:59:59Z becomes a negative int64, and the
     creation-time read of two records returns nothing. -/
@@ -858,6 +879,8 @@ structure Facts where
   patchExpiredReindexesAll : Tri
   /-- window bounds that `UnixNano` cannot represent are recognised instead of converted -/
   windowBoundsChecked : Tri
+  /-- `deleteHandlerIf` puts a record that is not wanted any more back into the indexes -/
+  claimLoserRefiled : Tri
   /-- `PatchExpired`, `SelectExpiredForPatchWithCap`, `ReindexExpiration`, `applyPatchMeta`,
       `CloneAndDeleteMatchingTreasures` and `beacon.ShiftMatching` have the modelled shape -/
   claimPathsStandard : Tri
@@ -890,7 +913,7 @@ def cfgOf (f : Facts) : Cfg := {
   typeChangeDetected := f.typeChangeDetected.isYes, valueShared := f.valueShared.isYes, flagsSticky := f.flagsSticky.isYes,
   setVoidClearsTyped := f.setVoidClearsTyped.isYes, initialisedAfterFill := f.initialisedAfterFill.isYes,
   refileGuardExpire := f.refileGuardExpire.isYes, patchExpiredReindexesAll := f.patchExpiredReindexesAll.isYes,
-  windowBoundsChecked := f.windowBoundsChecked.isYes }
+  windowBoundsChecked := f.windowBoundsChecked.isYes, claimLoserRefiled := f.claimLoserRefiled.isYes }
 
 /-- a fact the model depends on was not recognised in the source -/
 def unknownFact (f : Facts) : Option String :=
@@ -907,7 +930,7 @@ def unknownFact (f : Facts) : Option String :=
       f.addGuardCreated, f.addGuardUpdated, f.addGuardExpire, f.addGuardValueType,
       f.updRefreshCreated, f.updRefreshUpdated, f.updRefreshValue, f.updRefreshExpireOnFlag,
       f.typeChangeDetected, f.valueShared, f.flagsSticky, f.setVoidClearsTyped, f.initialisedAfterFill,
-      f.refileGuardExpire, f.windowBoundsChecked].any (· == .unknown) then
+      f.refileGuardExpire, f.windowBoundsChecked, f.claimLoserRefiled].any (· == .unknown) then
     some "treasuresForBeacon / addTreasureToBeacons / SaveFunction / treasure flags" else
   if f.patchExpiredReindexesAll == .unknown || !f.claimPathsStandard.isYes then
     some "PatchExpired / ReindexExpiration / ShiftMatching" else
